@@ -11,8 +11,9 @@ git -C /repo worktree remove --force $WT 2>/dev/null; git -C /repo worktree prun
 git -C /repo worktree add --detach $WT HEAD -f >/dev/null 2>&1 || { echo "cannot create worktree"; exit 2; }
 ids="$@"; [ -z "$ids" ] && ids=$(ls seeded)
 head=$(git -C /repo rev-parse --short HEAD)
-for id in $ids; do
-  prop=${id%%-*}
+for spec in $ids; do
+  id=${spec%%:*}; prop=${id%%-*}
+  case $spec in *:*) prop=${spec##*:};; esac     # ID:Cxx runs the check of another property against the mutant
   git -C $WT checkout -q -- . ; git -C $WT clean -fdq
   if ! git -C $WT apply --check /verif/seeded/$id/patch.diff 2>/dev/null; then
     echo "$id DOES-NOT-APPLY"; python3 tools/seeded_meta.py $id $head "" "" ; continue
@@ -23,7 +24,7 @@ for id in $ids; do
   nv=$(echo "$out" | grep -c '^VIOLATION')
   first=$(echo "$out" | grep '^VIOLATION' | head -1 | sed 's/.*replay=//; s/ .*//')
   echo "$id check=$prop rc=$rc violations=$nv $first"
-  python3 tools/seeded_meta.py $id $head $rc "$first"
+  python3 tools/seeded_meta.py $id $head $rc "$first" $prop
 done
 git -C /repo worktree remove --force $WT; git -C /repo worktree prune
 rm -rf $VERIF_OUT
